@@ -222,7 +222,7 @@ def build(rec: Dict[str, Any], seed: int, axis_aligned: bool = False) -> Built:
     if F("act_velocity"):
       act.append(f'<velocity name="a_vel" joint="{pj()}" kv="{_v(r.uniform(0.5, 5))}"{g()}{lims()}/>')
     if F("act_intvelocity"):
-      act.append(f'<intvelocity name="a_iv" joint="{pj()}" kp="{_v(r.uniform(1, 20))}" actrange="-1 1"{g()}{early}/>')
+      act.append(f'<intvelocity name="a_iv" joint="{pj()}" kp="{_v(r.uniform(1, 20))}" actrange="-1 1"{g()}/>')
     if F("act_damper"):
       act.append(f'<damper name="a_damp" joint="{pj()}" kv="{_v(r.uniform(0.5, 5))}" ctrlrange="0 1"{g()}/>')
     if F("act_cylinder"):
